@@ -3,6 +3,11 @@
 #include "vf_enum.hpp"
 #include "algorithms/periodic/tbfalgorithmperiodictoptree.hpp"
 #include "algorithms/periodic/tbfalgorithmperiodictoptreetsm.hpp"
+#ifdef VF_C10_OMP
+#include "sched/vf_sched.hpp"
+#include "algorithms/openmp/tbfopenmpalgorithm.hpp"
+#include "algorithms/openmp/tbfopenmpalgorithmtsm.hpp"
+#endif
 
 using namespace vf;
 
@@ -38,6 +43,24 @@ void evalTsm(const Spec& spec, Report& rep){
     if((1L << (Dim*(spec.height-1))) <= 512){
         rep.counters["lookup_queries"] += fx.checkLookupOf(out, fx.treeTsm->treeSource, "source-");
         rep.counters["lookup_queries"] += fx.checkLookupOf(out, fx.treeTsm->treeTarget, "target-");
+        // the forwarding lookups of the target/source tree must designate the same group of the right side
+        auto& T = *fx.treeTsm;
+        for(long l = 0 ; l < spec.height ; ++l){
+            const long ub = 1L << (l*Dim);
+            for(long q = -1 ; q <= ub ; ++q){
+                auto ws = T.findGroupWithCellSource(l, q); auto ds = T.treeSource.findGroupWithCell(l, q);
+                auto wt = T.findGroupWithCellTarget(l, q); auto dt = T.treeTarget.findGroupWithCell(l, q);
+                if(bool(ws) != bool(ds) || (ws && (static_cast<const void*>(&ws->first.get()) != static_cast<const void*>(&ds->first.get()) || ws->second != ds->second))) out.add("source-lookup:wrapper-cell", "level " + std::to_string(l) + " index " + std::to_string(q));
+                if(bool(wt) != bool(dt) || (wt && (static_cast<const void*>(&wt->first.get()) != static_cast<const void*>(&dt->first.get()) || wt->second != dt->second))) out.add("target-lookup:wrapper-cell", "level " + std::to_string(l) + " index " + std::to_string(q));
+            }
+        }
+        const long ubl = 1L << ((spec.height-1)*Dim);
+        for(long q = -1 ; q <= ubl ; ++q){
+            auto ws = T.findGroupWithLeafSource(q); auto ds = T.treeSource.findGroupWithLeaf(q);
+            auto wt = T.findGroupWithLeafTarget(q); auto dt = T.treeTarget.findGroupWithLeaf(q);
+            if(bool(ws) != bool(ds) || (ws && (static_cast<const void*>(&ws->first.get()) != static_cast<const void*>(&ds->first.get()) || ws->second != ds->second))) out.add("source-lookup:wrapper-leaf", "index " + std::to_string(q));
+            if(bool(wt) != bool(dt) || (wt && (static_cast<const void*>(&wt->first.get()) != static_cast<const void*>(&dt->first.get()) || wt->second != dt->second))) out.add("target-lookup:wrapper-leaf", "index " + std::to_string(q));
+        }
     }
     fx.tag();
     fx.cx.checkArgs = true;
@@ -99,29 +122,48 @@ void evalPeriodic(const Spec& spec, const long extra, const bool tsm, Report& re
     fx.cx.checkArgs = true;
     long lo = 0, hi = 0, totalRep = 0;
     fx.activate();
+#ifdef VF_C10_OMP
+    // OpenMP executors under the mock runtime; the schedule of the three execute() calls is a named schedule picked from the case ordinal
+    static unsigned long caseOrdinal = 0; ++caseOrdinal;
+    auto ompBegin = [&](int shift){ vfs::Config vc; vc.policy = vfs::Policy((caseOrdinal + shift) % vfs::PolicyCount); vc.nbWorkers = 2; vc.digests = false; vfs::beginRun(vc); };
+    auto ompEnd = [&](){ const auto tr = vfs::endRun(); for(const auto& v : tr.violations) out.add("schedule:" + v, v); };
+#define VF_OMP_EXEC(call, shift) do{ ompBegin(shift); call; ompEnd(); }while(0)
+#else
+#define VF_OMP_EXEC(call, shift) do{ call; }while(0)
+#endif
     if(!tsm){
+#ifdef VF_C10_OMP
+        using Algo = TbfOpenmpAlgorithm<double, typename FX::Kernel, SI>;
+#else
         using Algo = TbfAlgorithm<double, typename FX::Kernel, SI>;
+#endif
         using Top = TbfAlgorithmPeriodicTopTree<double, typename FX::Kernel, typename FX::Mult, typename FX::Loc, SI>;
-        auto algo = std::make_unique<Algo>(fx.config, TbfDefaultLastLevelPeriodic);
+        std::unique_ptr<Algo> algo;
+        VF_OMP_EXEC(algo = std::make_unique<Algo>(fx.config, TbfDefaultLastLevelPeriodic), 0);
         auto top = std::make_unique<Top>(fx.config, extra);
-        algo->execute(*fx.tree, TbfAlgorithmUtils::TbfBottomToTopStages);
+        VF_OMP_EXEC(algo->execute(*fx.tree, TbfAlgorithmUtils::TbfBottomToTopStages), 0);
         top->execute(*fx.tree);
-        algo->execute(*fx.tree, TbfAlgorithmUtils::TbfTransferStages);
-        algo->execute(*fx.tree, TbfAlgorithmUtils::TbfTopToBottomStages);
+        VF_OMP_EXEC(algo->execute(*fx.tree, TbfAlgorithmUtils::TbfTransferStages), 1);
+        VF_OMP_EXEC(algo->execute(*fx.tree, TbfAlgorithmUtils::TbfTopToBottomStages), 2);
         const auto iv = top->getRepetitionsIntervals();
         lo = iv.first[0]; hi = iv.second[0]; totalRep = top->getNbTotalRepetitions();
         for(int d = 1 ; d < Dim ; ++d) if(iv.first[d] != lo || iv.second[d] != hi) out.add("periodic:interval-not-cubic", "");
         if(top->getNbRepetitionsPerDim() != hi - lo + 1) out.add("periodic:repetitions-per-dim-vs-interval", std::to_string(top->getNbRepetitionsPerDim()) + " vs interval " + std::to_string(lo) + ".." + std::to_string(hi));
     }
     else{
+#ifdef VF_C10_OMP
+        using Algo = TbfOpenmpAlgorithmTsm<double, typename FX::Kernel, SI>;
+#else
         using Algo = TbfAlgorithmTsm<double, typename FX::Kernel, SI>;
+#endif
         using Top = TbfAlgorithmPeriodicTopTreeTsm<double, typename FX::Kernel, typename FX::Mult, typename FX::Loc, SI>;
-        auto algo = std::make_unique<Algo>(fx.config, TbfDefaultLastLevelPeriodic);
+        std::unique_ptr<Algo> algo;
+        VF_OMP_EXEC(algo = std::make_unique<Algo>(fx.config, TbfDefaultLastLevelPeriodic), 0);
         auto top = std::make_unique<Top>(fx.config, extra);
-        algo->execute(*fx.treeTsm, TbfAlgorithmUtils::TbfBottomToTopStages);
+        VF_OMP_EXEC(algo->execute(*fx.treeTsm, TbfAlgorithmUtils::TbfBottomToTopStages), 0);
         top->execute(*fx.treeTsm);
-        algo->execute(*fx.treeTsm, TbfAlgorithmUtils::TbfTransferStages);
-        algo->execute(*fx.treeTsm, TbfAlgorithmUtils::TbfTopToBottomStages);
+        VF_OMP_EXEC(algo->execute(*fx.treeTsm, TbfAlgorithmUtils::TbfTransferStages), 1);
+        VF_OMP_EXEC(algo->execute(*fx.treeTsm, TbfAlgorithmUtils::TbfTopToBottomStages), 2);
         const auto iv = top->getRepetitionsIntervals();
         lo = iv.first[0]; hi = iv.second[0]; totalRep = top->getNbTotalRepetitions();
         if(top->getNbRepetitionsPerDim() != hi - lo + 1) out.add("periodic:repetitions-per-dim-vs-interval", std::to_string(top->getNbRepetitionsPerDim()) + " vs interval " + std::to_string(lo) + ".." + std::to_string(hi));
